@@ -30,6 +30,8 @@ type Cfg struct {
 	DropPermille       uint64      `json:"drop_permille,omitempty"`
 	TOLostPermille     uint64      `json:"timeout_lost_permille,omitempty"`
 	TOAppliedPermille  uint64      `json:"timeout_applied_permille,omitempty"`
+	TOLatePermille     uint64      `json:"timeout_late_permille,omitempty"` // ErrTimeout now, committed up to TOLateMaxMs later
+	TOLateMaxMs        uint64      `json:"timeout_late_max_ms,omitempty"`
 	FollowerFirst      bool        `json:"follower_first,omitempty"` // followers start before any leader write
 	ReadBusyPermille   uint64      `json:"read_busy_permille,omitempty"`
 	NoReplication      bool        `json:"no_replication,omitempty"` // follower nodes run no replication manager (C15: only the harness leases)
